@@ -90,7 +90,7 @@ type node struct {
 	mon  kcache.Monitor
 	leaf kcache.Subscription
 
-	filt     int // reference predicate: index into the family; -1 none; -2 deferred and not supplied
+	filt     int // reference predicate: index into the family; -1 none; -2 deferred and not supplied; -3 the raw filter.All() (rejects markers too)
 	closed   bool
 	baseline bool
 
@@ -110,6 +110,12 @@ type node struct {
 
 	// monitor callback log
 	cb *cbLog
+
+	// C08: listing taken at the instant Ready() was observed
+	atReady        []string
+	atReadyErr     error
+	atReadySet     bool
+	atReadyChecked bool
 }
 
 func (n *node) isFiltered() bool {
@@ -194,6 +200,9 @@ type worldCfg struct {
 	gatedRelist bool          // lists after the first are gated; refresh period short
 	period      time.Duration // refresh period (default 1h)
 	checkGet    bool          // C05: read the cache right after each event
+	gateFirst   bool          // the first list is gated too: the root is not ready until releaseFirst
+	checkReady  bool          // C08: list every node's cache at the instant its Ready() is observed
+	stepChecked bool          // the test calls checkQuiet after every single operation, starting right after creation
 }
 
 type world struct {
@@ -210,9 +219,12 @@ type world struct {
 	hist   []string
 	view   map[string]metav1.Object // what the root controller should hold before filtering
 
-	markRV   int
-	dropping int
-	finished bool
+	markRV    int
+	dropping  int
+	finished  bool
+	rootReady bool
+	rootDead  bool // the first list failed: nothing ever becomes ready, everything becomes done
+	firstReq  *listReq
 }
 
 func (w *world) h(format string, args ...interface{}) {
@@ -280,17 +292,34 @@ func newWorld(t failer, cfg worldCfg) *world {
 	if cfg.rootFilter >= 0 {
 		b.Filter(wrapFilter(w.fam[cfg.rootFilter]))
 	}
+	if cfg.gateFirst {
+		w.api.gated = true
+	}
 	root, err := b.Create()
 	if err != nil {
 		t.Fatalf("harness: cannot create controller: %v", err)
 	}
 	w.root = root
-	w.h("controller filter=%s period=%v", w.filtName(cfg.rootFilter), period)
-	w.waitFor(root.Ready(), "root controller Ready() after the first list")
-	if cfg.gatedRelist {
-		w.api.mu.Lock()
-		w.api.gated = true
-		w.api.mu.Unlock()
+	w.h("controller filter=%s period=%v gateFirst=%v", w.filtName(cfg.rootFilter), period, cfg.gateFirst)
+	if cfg.gateFirst {
+		req := w.api.awaitList(wedgeBound + wedgeConfirm)
+		if req == nil {
+			w.fail("WEDGE: the controller never issued its first List call")
+		}
+		w.firstReq = req
+		if !cfg.gatedRelist {
+			w.api.mu.Lock()
+			w.api.gated = false
+			w.api.mu.Unlock()
+		}
+	} else {
+		w.waitFor(root.Ready(), "root controller Ready() after the first list")
+		w.rootReady = true
+		if cfg.gatedRelist {
+			w.api.mu.Lock()
+			w.api.gated = true
+			w.api.mu.Unlock()
+		}
 	}
 	rn := &node{name: "root", kind: "root", ctl: root, filt: cfg.rootFilter}
 	w.addNode(rn)
@@ -303,6 +332,8 @@ func (w *world) filtName(i int) string {
 		return "none"
 	case i == -2:
 		return "not-supplied"
+	case i == -3:
+		return "raw filter.All()"
 	}
 	return fmt.Sprintf("#%d:%s", i, w.fam[i])
 }
@@ -328,6 +359,18 @@ func (w *world) addNode(n *node) {
 			n.leaf = n.sub
 		}
 		go n.pump()
+		if w.cfg.checkReady {
+			go func() {
+				select {
+				case <-n.leaf.Ready():
+					objs, err := n.leaf.Cache().List()
+					n.mu.Lock()
+					n.atReady, n.atReadyErr, n.atReadySet = keyVersions(objs), err, true
+					n.mu.Unlock()
+				case <-n.eof:
+				}
+			}()
+		}
 	}
 	w.nodes = append(w.nodes, n)
 	if n.parent != nil {
@@ -463,9 +506,24 @@ func (w *world) effective(n *node, o metav1.Object) bool {
 	return true
 }
 
+// markerBlind: a node on the path filters with the raw filter.All(), which
+// rejects the marker as well: the node is ready but cannot take part in the
+// marker wait of a barrier.
+func (w *world) markerBlind(n *node) bool {
+	for x := n; x != nil; x = x.parent {
+		if x.filt == -3 {
+			return true
+		}
+	}
+	return false
+}
+
 // shouldBeReady: the readiness model — every deferred node on the path has
 // been given a filter (the root is ready: newWorld waits for it).
 func (w *world) shouldBeReady(n *node) bool {
+	if !w.rootReady {
+		return false
+	}
 	for x := n; x != nil; x = x.parent {
 		if x.isDeferred() && x.filt == -2 {
 			return false
@@ -523,7 +581,7 @@ func (w *world) put(ns, name string, labels map[string]string) {
 		w.dropping--
 	}
 	rv := w.api.put(ns, name, labels)
-	if !dropped {
+	if !dropped && w.rootReady {
 		w.api.mu.Lock()
 		w.view[ns+"/"+name] = w.api.objs[ns+"/"+name]
 		w.api.mu.Unlock()
@@ -540,7 +598,7 @@ func (w *world) del(ns, name string) bool {
 		w.dropping--
 	}
 	rv, _ := w.api.del(ns, name)
-	if !dropped {
+	if !dropped && w.rootReady {
 		delete(w.view, ns+"/"+name)
 	}
 	w.h("del %s/%s -> rv %d%s", ns, name, rv, map[bool]string{true: " (dropped by the watch)", false: ""}[dropped])
@@ -602,6 +660,32 @@ func (w *world) relist() {
 	w.dropping = 0
 }
 
+// releaseFirst lets the gated first list return (snapshot taken now), or
+// fail with the given fault.
+func (w *world) releaseFirst(fault listFault) {
+	if w.firstReq == nil {
+		panic("releaseFirst without a pending first list")
+	}
+	req := w.firstReq
+	w.firstReq = nil
+	if fault != lfNone {
+		req.fail(fault)
+		w.rootDead = true
+		w.h("first list fails with %s", fault)
+		return
+	}
+	snap := req.release(w.api, false)
+	w.h("first list released at rv %d (%d objects)", snap.rv, len(snap.items))
+	w.view = map[string]metav1.Object{}
+	for _, o := range snap.items {
+		if o.GetNamespace() != markerNS {
+			w.view[objKey(o)] = o
+		}
+	}
+	w.waitFor(w.root.Ready(), "root controller Ready() after the first list was released")
+	w.rootReady = true
+}
+
 func (w *world) attach(p *node, kind string, filt int) *node {
 	n := &node{kind: kind, parent: p, filt: -1}
 	pub := p.publisher()
@@ -652,6 +736,27 @@ func (w *world) refilter(n *node, filt int) {
 	}
 	w.h("refilter %s %s -> %s", n.name, w.filtName(n.filt), w.filtName(filt))
 	n.filt = filt
+}
+
+// refilterRawAll supplies the library's own filter.All() (equal to the
+// initial filter of a for-filter node).
+func (w *world) refilterRawAll(n *node) {
+	var err error
+	done := make(chan struct{})
+	go func() {
+		if n.fsub != nil {
+			err = n.fsub.Refilter(filter.All())
+		} else {
+			err = n.fctl.Refilter(filter.All())
+		}
+		close(done)
+	}()
+	w.waitFor(done, fmt.Sprintf("Refilter() call on %s returning", n.path()))
+	if err != nil {
+		w.fail("Refilter on live node %s failed: %v", n.path(), err)
+	}
+	w.h("refilter %s %s -> raw filter.All()", n.name, w.filtName(n.filt))
+	n.filt = -3
 }
 
 func (w *world) markClosed(n *node) {
@@ -751,9 +856,15 @@ func (w *world) barrier1() {
 	for _, n := range nodes {
 		w.waitFor(n.readyCh(), fmt.Sprintf("Ready() of %s (parent ready and filter supplied)", n.path()))
 	}
+	if !w.rootReady {
+		return // nothing can flow before the first list has been applied
+	}
 	rv := w.api.put(markerNS, "marker", nil)
 	w.markRV = rv
 	for _, n := range nodes {
+		if w.markerBlind(n) {
+			continue
+		}
 		if !n.waitMark(rv) {
 			select {
 			case <-n.eof:
@@ -768,6 +879,9 @@ func (w *world) barrier1() {
 		}
 	}
 	for _, n := range mons {
+		if w.markerBlind(n) {
+			continue
+		}
 		if !n.cb.waitMark(rv, wedgeBound+wedgeConfirm) {
 			if isClosedCh(n.mon.Done()) {
 				w.fail("monitor %s is Done() although neither it nor an ancestor was closed", n.path())
@@ -873,6 +987,31 @@ func (w *world) checkQuiet() {
 		if !sameStrings(gk, want) {
 			w.fail("node %s: cache %v, reference (filters on the path applied to the controller's view) %v", n.path(), gk, want)
 		}
+		if w.cfg.checkReady {
+			// a cache read made once Ready() is observed already returns the synced content
+			deadline := time.Now().Add(wedgeBound)
+			for {
+				n.mu.Lock()
+				set, checked, at, aerr := n.atReadySet, n.atReadyChecked, n.atReady, n.atReadyErr
+				n.atReadyChecked = n.atReadyChecked || set
+				n.mu.Unlock()
+				if set {
+					if !checked {
+						if aerr != nil {
+							w.fail("node %s: List() right after Ready() failed: %v", n.path(), aerr)
+						}
+						if !sameStrings(at, want) {
+							w.fail("node %s: Cache().List() taken at the instant Ready() was observed returned %v, the synced content is %v", n.path(), at, want)
+						}
+					}
+					break
+				}
+				if time.Now().After(deadline) {
+					break
+				}
+				time.Sleep(20 * time.Microsecond)
+			}
+		}
 		_, mirror, merr, early, stale := n.snapshotObs()
 		if early != "" {
 			w.fail("node %s: %s", n.path(), early)
@@ -884,7 +1023,13 @@ func (w *world) checkQuiet() {
 			w.fail("node %s: event stream is not a well-formed delta: %s", n.path(), merr)
 		}
 		if !n.baseline {
-			// first quiescent point at which the node is ready: take the consumer's baseline
+			// first quiescent point at which the node is ready.  Nothing was in
+			// flight when it became ready and nothing has been published since,
+			// so any event in its log was sent no later than Ready() closed.
+			if c := n.eventCount(); c > 0 && w.cfg.stepChecked {
+				w.fail("node %s delivered %d events (first: %s) no later than the moment its Ready() closed", n.path(), c, n.eventsFrom(0)[0])
+			}
+			// take the consumer's baseline
 			n.mu.Lock()
 			n.mirror = map[string]metav1.Object{}
 			for _, o := range got {
